@@ -9,6 +9,7 @@ From LR Require Import gen.Consts.
 From LR Require Import proofs.TmTreeP proofs.TmTreeMLP proofs.CIndexP proofs.SelectorP proofs.SelectorInvP proofs.SelectorRunP.
 From LR Require Import proofs.SelectorSelP.
 From LR Require Import proofs.SelectorPosP.
+From LR Require Import proofs.SelectorSnapP.
 Open Scope Z_scope.
 
 (* The property as a statement about a variant v of the model: after ANY history of write batches
@@ -217,6 +218,33 @@ Proof.
   split; [exact H1|]. rewrite H2, H3, H4. split; [reflexivity|lia].
 Qed.
 Print Assumptions C02_carried_index_refuted.
+
+(* ---- the snapshot cindex.dat and crashes (model/Selector.v lstep: the state is the partition and what cindex.dat holds):
+   close() writes the snapshot at a clean shutdown only, init() loads it and REMOVES it - a snapshot is used at most
+   once. Hence while the server runs there is no snapshot on disk, a crash (the process dies without close()) leaves
+   none, and every history with crashes is a history of C02_complete_partial with an index loss in place of each
+   crash. ---- *)
+Theorem C02_snapshot_used_once : forall v ops st,
+  lrun false v ops (st, None) = (fold_left (step v) (map crash_as_drop ops) st, None).
+Proof. exact snapshot_used_once. Qed.
+Print Assumptions C02_snapshot_used_once.
+
+Theorem C02_complete_with_crashes : forall ops o1 o2,
+  let hist := map crash_as_drop ops in
+  Forall op_ok hist -> op_ok (HRead o1 o2) -> hist_sorted hist -> hist_disciplined hist -> hist_small hist ->
+  complete_at impl_variant (fst (lrun false impl_variant ops (p_init, None))) o1 o2.
+Proof. exact complete_with_crashes. Qed.
+Print Assumptions C02_complete_with_crashes.
+
+(* an init() that leaves the loaded snapshot in place (seeded/C02-11): 300 x 100, clean restart, 10 x 200 into the same
+   chunk, crash: the stale snapshot is loaded again, its hull ends at 100, RANGE ["200":"200"] is empty *)
+Theorem C02_kept_snapshot_refuted :
+  exists ops o1 o2, let hist := map crash_as_drop ops in
+    Forall op_ok hist /\ hist_sorted hist /\ hist_disciplined hist /\ hist_small hist /\
+    complete_at impl_variant (fst (lrun false impl_variant ops (p_init, None))) o1 o2 /\
+    ~ complete_at impl_variant (fst (lrun true impl_variant ops (p_init, None))) o1 o2.
+Proof. exists snap_wit, (Some 200), (Some 200). exact kept_snapshot_refuted. Qed.
+Print Assumptions C02_kept_snapshot_refuted.
 
 (* ---- the multi-level block tree (model/TmTreeML.v, compared with real ckindex trees of up to 3 levels on every
    run) has the three properties of the flat record list that the proofs above use: on a well-formed tree of ANY
